@@ -7,7 +7,8 @@ import fractions
 import numpy as real_np
 import z3
 
-sys.path.insert(0, '/repo')
+REPO = os.environ.get('VERIF_REPO', '/repo')   # VERIF_REPO: scratch copy for mutation self-tests only
+sys.path.insert(0, REPO)
 
 from symnb import core, arrays, rebind, harness  # noqa: E402
 from symnb.core import Sym, ctx  # noqa: E402
@@ -95,7 +96,7 @@ REPLAY_HEADER = '''#!/usr/bin/env python
 # Replay of a solver counterexample against the REAL code of /repo (no symbolic engine).
 # exit 1: the violation reproduces; exit 0: the real code behaves correctly.
 import os, sys, types
-sys.path.insert(0, '/repo')
+sys.path.insert(0, os.environ.get('VERIF_REPO', '/repo'))
 for _n in ['blosc', 'parallel_numpy_rng', 'Corrfunc', 'Corrfunc.theory']:
     try:
         __import__(_n)
